@@ -1089,6 +1089,24 @@ def run_rayforms(case, seed, R):
         a = as_array(R, arr, shp, sig + ':shape', what)
         if a is not None:
             R.expect_close(a, want, tol, sig, f'{what} for P as {case["Pform"]}, S as {case["Sform"]} ({case["ray"]}) vs the float64 trace')
+    # OBLIQUE rays with mixed precisions of P and S (positions from a float64 model, direction cosines stored in float32, and the
+    # reverse): the trace of the numbers as given equals the trace of the same numbers upcast to float64 (P float64: to rounding)
+    if case['ray'] == 'batch' and case['Pform'] == case['Sform'] == RAY_FORMS[0]:
+        d = np.array([0.2, -0.1, 0.0])
+        d[2] = zd * math.sqrt(1 - d[0] ** 2 - d[1] ** 2)
+        So = np.tile(d, (25, 1))
+        for pdt, sdt in ((np.float64, np.float32), (np.float32, np.float64)):
+            Pm, Sm = P0.astype(pdt), So.astype(sdt)
+            ref = R.call(sm.raytrace, surfs, Pm.astype(float), Sm.astype(float), WVL, n_ambient=1.0, sig='raytrace:rayform:mixed-precision:exception', hygiene=False)
+            out = R.call(sm.raytrace, surfs, Pm.copy(), Sm.copy(), WVL, n_ambient=1.0, sig='raytrace:rayform:mixed-precision:exception')
+            if ref is FAILED or out is FAILED:
+                continue
+            lowp = pdt == np.float32
+            for k, what in ((0, 'P_hist'), (1, 'S_hist')):
+                sc_ = 1 + float(np.abs(np.nan_to_num(np.asarray(ref[k], dtype=float))).max())
+                R.expect_close(np.asarray(out[k], dtype=float), np.asarray(ref[k], dtype=float), (8 * float(np.finfo(np.float32).eps) if lowp else 64 * EPS) * sc_,
+                               f'raytrace:rayform:mixed-precision:P-{np.dtype(pdt).name}:S-{np.dtype(sdt).name}',
+                               f'{what} of oblique rays with P as {np.dtype(pdt).name} and S as {np.dtype(sdt).name} vs the float64 trace of the same numbers')
     R.nontrivial()
     R.outcome(f'P-{pc}:S-{sc}')
 
@@ -1211,6 +1229,13 @@ def run_surface_history(case, seed, R):
         g = Geo({'shape': kind, 'P': pos, 'R': pose, 'typ': typ, 'n': npr}, seed)
         return g, g.build(R)
 
+    # session history of the rotation-matrix helper: the same angle numbers requested in RADIANS first (a user's own frame bookkeeping);
+    # the surfaces below give them in degrees
+    from prysm import coordinates as _pc
+    for pose in SOH_POSES:
+        if pose is not None:
+            got = R.call(_pc.make_rotation_matrix, tuple(pose), radians=True, sig='make_rotation_matrix:exception')
+            R.expect_close(got, ref_rotmat([math.degrees(v) for v in pose]), 64 * EPS, 'make_rotation_matrix:radians', f'make_rotation_matrix({tuple(pose)}, radians=True)')
     g0, surf = make(SOH_POSES[seqs[0][0]], SOH_PS[seqs[0][1]], seqs[0][2])
     if surf is FAILED:
         return
@@ -1227,6 +1252,15 @@ def run_surface_history(case, seed, R):
                 except Exception as e:   # noqa
                     R.violation('Surface:history:setattr', f'cannot assign Surface.{attr}: {e}')
                     return
+        if case.get('params') and isinstance(getattr(surf, 'params', None), dict):
+            # the shape parameters of a conic live in surf.params and are read when the surface is evaluated: edit them in place
+            # (c, k of the next configuration) and compare with a fresh conic of those parameters
+            c2, k2 = case['params'][0 if first else 1]
+            g = Geo({'shape': {'kind': 'conic', 'c': c2, 'k': k2}, 'P': SOH_PS[ipos], 'R': SOH_POSES[ipose], 'typ': typ, 'n': npr}, seed)
+            fresh = g.build(R)
+            if fresh is FAILED:
+                return
+            surf.params['c'], surf.params['k'] = c2, k2
         out = R.call(sm.raytrace, [surf], P0.copy(), S0.copy(), WVL, n_ambient=1.0, sig='raytrace:exception:history')
         want = R.call(sm.raytrace, [fresh], P0.copy(), S0.copy(), WVL, n_ambient=1.0, sig='raytrace:exception:history', hygiene=False)
         if out is FAILED or want is FAILED:
@@ -1251,6 +1285,10 @@ def surface_history_cases(tier):
     out = []
     para, sph, pln, ell = {'kind': 'conic', 'c': 1 / 50, 'k': -1.0}, {'kind': 'sphere', 'c': -1 / 50}, {'kind': 'plane'}, {'kind': 'conic', 'c': 1 / 50, 'k': 0.5}
     kinds = [(para, 'refl'), (sph, 'refr'), (pln, 'refr')] if tier == 'quick' else [(para, 'refl'), (ell, 'refr'), (sph, 'refr'), (pln, 'refl'), (pln, 'refr')]
+    # conic shape parameters edited in place between traces (from / to the paraboloid k = -1, and between general conics)
+    for (p0, p1) in (((1 / 50, -1.0), (1 / 50, -0.5)), ((1 / 50, -0.5), (1 / 50, -1.0)), ((1 / 50, 0.5), (-1 / 80, -2.0)), ((1 / 50, -1.0), (1 / 65, -1.0))):
+        for typ in ('refl', 'refr'):
+            out.append({'shape': {'kind': 'conic', 'c': p0[0], 'k': p0[1]}, 'typ': typ, 'sequence': [[1, 0, 1.5], [1, 0, 1.5]], 'params': [list(p0), list(p1)]})
     for kind, typ in kinds:
         for s0 in states:
             for s1 in states:
